@@ -30,7 +30,19 @@ def arm_of(cx, b, bb):
     return arms
 
 
+def near_check_angle_rule(cx):
+    b = cx.fn(f'{NC}::near_check')
+    if b:
+        r = cx.retval(b)
+        e = find('(le (call Matrix::angle (unwrap (param face_normal)) $rn) (unwrap (field angle_tol _)))', r)
+        ok = e is not None and find('(call *vertex_check (param self) (param vertex_index))', e[1]['rn']) is not None and not b.calls('f64::acos') and len(b.calls('Matrix::angle')) == 1
+        cx.ob('EXPR', 'near_check:angle-criterion', ok,
+              'the normal test is Matrix::angle(face normal, reference normal) <= angle_tol - the clamped angle (acos of a raw dot product is NaN when two parallel unit normals round above 1, and a face parallel to the reference would be rejected)',
+              where=b.file, found=r)
+
+
 def run(cx):
+    near_check_angle_rule(cx)
     from rules.C02 import project_with_max_dist_rule
     project_with_max_dist_rule(cx)
     # ---------------------------------------------------------------- MEMO
